@@ -24,7 +24,7 @@ for sd in sys.argv[1:]:
     meta = {
         'id': name,
         'breaks_property': note.get('property', name.split('-')[0]),
-        'origin': 'independent sub-agent given only the property text and a scratch worktree (round %s)' % name.split('-r')[1][0],
+        'origin': 'independent sub-agent given only the property text and a scratch worktree (round %s)' % __import__('re').search(r'-r(\d+)', name).group(1),
         'files_changed': note.get('files'),
         'what_the_change_is': note.get('what'),
         'needs_in_order_to_manifest': note.get('needs'),
